@@ -28,8 +28,8 @@ RULE = (
     "clamp bounds, double_round, 1..3 channels; expansion equals the documented limited formula on corner, clamp-edge, drawn and "
     "derived inputs. dispatch: module declaring 0..4 of snax_alu/snax_gemmx/snax_xdma/snax_hwpe_mult/gemmini and one generic whose "
     "body is a single kernel op of arbitrary operand types or a non-single-kernel body; library_call names accelerator X only if X "
-    "is declared, lists the kernel class AND exactly the operand+result types. Non-trivial: a declared accelerator lists the "
-    "kernel class and the pass set a library_call."
+    "is declared, lists the kernel class AND exactly the operand+result types. Non-trivial: the pass set a library_call and the target "
+    "lists the kernel class with exactly these types."
 )
 ASSUMPTIONS = [
     "xDSL 0.70 compatibility shim (vlib/compat.py) only converts list-valued irdl_options to tuples",
@@ -53,6 +53,11 @@ SIG_WIRING = "linalg-to-kernel:same-op-types-different-wiring:function-changed"
 SIG_WIRING_UNDEF = "linalg-to-kernel:same-op-types-different-wiring:kernel-undefined-at-types"
 SIG_DISPATCH_TYPES = "dispatch:kernel-class-declared:operand-types-differ"
 SIG_K2L_OPERANDS = "kernel-to-linalg:kernel-operands-not-block-args-in-order:function-changed"
+# kernel ops whose operands are not exactly the body's block arguments in order are valid IR (upstream's own
+# dispatch_kernels.mlir contains one) but no pass in the repository produces them. Set to False to treat them as outside the domain.
+K2L_INCLUDE_REORDERED_OPERANDS = True
+
+E.selftest()  # evaluator sanity (milliseconds); a failure is a harness error at import, never a violation
 
 # ------------------------------------------------------------------------------------------ helpers
 
@@ -145,7 +150,11 @@ def _vectors(widths, r, n_derived=192):
     n = len(widths)
     vs = []
     total = 5 ** n
-    stride = 1 if total <= 3125 else (total // 3125) | 1
+    stride = 1
+    if total > 3125:  # more than 5 arguments: every k-th combination, k coprime to 5 so that every argument still sees every corner
+        stride = total // 3125 + 1
+        while stride % 5 == 0:
+            stride += 1
     for i, v in enumerate(E.corner_vectors(widths)):
         if i % stride == 0:
             vs.append(v)
@@ -274,6 +283,8 @@ def prop_k2l(r):
     except E.KernelUndefined as e:
         raise Outside("kernel has no well-typed definition at these types")
     in_order = wiring == list(range(k))
+    if not in_order and not K2L_INCLUDE_REORDERED_OPERANDS:
+        raise Outside("kernel operands are not the block arguments in order")
     kname = before.instrs[0].param[0]
     cls = [f"kernel:{kernel}", "widths:mixed" if len(set(widths)) > 1 else "widths:uniform",
            "operands:in-order" if in_order else "operands:other"]
@@ -454,7 +465,8 @@ def prop_dispatch(r):
         raise Violation("dispatch:kernel-class-not-declared-by-target", detail)
     if not any(kt is type(kop) and ts == ktypes for kt, ts in sup):
         cls.append("outcome:dispatched-types-differ")
-        return Info(nontrivial=True, classes=tuple(cls), known=[(SIG_DISPATCH_TYPES, detail)])
+        # not counted as non-trivial: the count must not depend on whether this known defect is present
+        return Info(nontrivial=False, classes=tuple(cls), known=[(SIG_DISPATCH_TYPES, detail)])
     cls.append("outcome:dispatched-exact")
     return Info(nontrivial=True, classes=tuple(cls), sample=f"{b['kernel']} {b['types']} -> {call}")
 
@@ -464,12 +476,12 @@ SUBS = [
         budget=dict(quick=6000, thorough=150000), exhaustive=G.l2k_exhaustive, floor=dict(quick=1000, thorough=20000),
         nontrivial_rule="the body has the op-type sequence and argument count of a kernel's equivalent region (candidate for rewriting)"),
     Sub("kernel_roundtrip", lambda tier: G.k2l_recipe(tier), prop_k2l,
-        budget=dict(quick=1000, thorough=30000), exhaustive=G.k2l_exhaustive, floor=dict(quick=200, thorough=4000),
+        budget=dict(quick=1000, thorough=30000), exhaustive=G.k2l_exhaustive, floor=dict(quick=200, thorough=6000),
         nontrivial_rule="the kernel op has a well-typed definition, was expanded, and expansion/definition/reference were compared on inputs"),
     Sub("rescale", lambda tier: G.rescale_recipe(tier), prop_rescale,
-        budget=dict(quick=1200, thorough=40000), floor=dict(quick=180, thorough=5000),
+        budget=dict(quick=1200, thorough=40000), floor=dict(quick=180, thorough=6000),
         nontrivial_rule="kernel.rescale was expanded and the tested inputs reach at least two of {lower clamp, upper clamp, unclamped}"),
     Sub("dispatch", lambda tier: G.dispatch_recipe(tier), prop_dispatch,
-        budget=dict(quick=1500, thorough=30000), exhaustive=G.dispatch_exhaustive, floor=dict(quick=180, thorough=2000),
-        nontrivial_rule="a declared accelerator lists the kernel class with exactly the operand+result types and the pass set library_call"),
+        budget=dict(quick=1500, thorough=30000), exhaustive=G.dispatch_exhaustive, floor=dict(quick=30, thorough=400),
+        nontrivial_rule="the pass set library_call and the named accelerator is declared and lists the kernel class with exactly the operand+result types"),
 ]
